@@ -27,15 +27,21 @@ PINNED_TABLE = os.path.join(core.VERIF, "translate", "c16_table_pinned.v")
 
 HEADER = """From SF Require Import C16.Fexp.
 From Gen Require Import C16Table.
-From Coq Require Import String List ZArith. Import ListNotations. Open Scope string_scope.
+From Coq Require Import String List ZArith Bool. Import ListNotations. Open Scope string_scope. Open Scope bool_scope.
 Definition agree (m r : string) : string := if String.eqb m "U" then "?" else if String.eqb m r then "1" else "0".
-(* case = (entry, real verdict for the probe name "c", real verdict for "zz9");
-   answer = model verdicts followed by model=implementation flags *)
-Definition check (k : entry * string * string) : string :=
-  let '(e, r1, r2) := k in
+Definition fpflag (v : val) (fp : option (list (string * nat * nat))) : string :=
+  match fp with
+  | None => "-"
+  | Some l => if val_unk v || is_err v then "?" else if fp_ok v l then "1" else "0"
+  end.
+(* case = (entry, real verdict for the probe name "c", real verdict for "zz9", data-flow fingerprints of the two real
+   trees for "c");  answer = model verdicts, model=implementation flags, fingerprint flags (name form, col form) *)
+Definition check (k : entry * string * string * option (list (string * nat * nat)) * option (list (string * nat * nat))) : string :=
+  let '(e, r1, r2, f1, f2) := k in
   let m1 := verdict gen_prims gen_table "c" e in
   let m2 := verdict gen_prims gen_table "zz9" e in
-  m1 ++ m2 ++ agree m1 r1 ++ agree m2 r2.
+  m1 ++ m2 ++ agree m1 r1 ++ agree m2 r2
+     ++ fpflag (res_str gen_prims gen_table "c" e) f1 ++ fpflag (res_col gen_prims gen_table "c" e) f2.
 """
 
 
@@ -158,7 +164,25 @@ def run(ctx: core.Ctx):
     proved = False
     if t1_ok:
         proved = ctx.prove([ctx.build + "/gen/C16Table.v", ctx.build + "/gen/C16Entries.v", core.COQ + "/props/C16.v"],
-                           dep_theories=["C16/Fexp.v"])
+                           dep_theories=["C16/Fexp.v", "C16/Known.v"])
+        # refutations of the listed defects: a separate file, because a defect that gets REPAIRED in /repo makes its
+        # refutation fail, and that must not raise an alarm (the entry then simply stops being reported)
+        ref = core.COQ + "/props/C16_refuted.v"
+        n_ref = core.count_obligations(ref)
+        ctx.obligations += n_ref
+        if core.grep_gate([ref]):
+            ctx.broken("axiom-gate:C16_refuted.v", "; ".join(core.grep_gate([ref])[:3]))
+        else:
+            rc, out, err, dt, cmd = ctx.coqc(ref)
+            ctx.checker_cmds.append(cmd)
+            if rc == 0:
+                ctx.discharged += n_ref
+                for blk in core.parse_assumptions(out):
+                    ctx.assumptions_printed.append("C16_refuted.v: " + blk)
+            else:
+                ctx.log("C16_refuted.v does not compile any more: a listed defect is no longer a counterexample of the "
+                        "model (repaired in the source?) -- not an alarm; " + (err or out)[-300:].replace("\n", " "))
+                ctx.coverage["refutations_no_longer_hold"] = (err or out)[-600:]
     else:
         ctx.coqc(ctx.build + "/gen/C16Table.v")
     # ---- T3: the real calls.  quick = standalone + duckdb + one rotating engine; thorough = all engines
@@ -185,14 +209,19 @@ def run(ctx: core.Ctx):
         if a is None or "per_name" not in a:
             continue
         v1, v2 = (pn["verdict"] for pn in a["per_name"])
-        items.append(f"({entry_coq(ent)}, {strlit(v1)}, {strlit(v2)})")
+        def fp(x):
+            if x is None:
+                return "None"
+            return "(Some " + listlit([f"({strlit(n)}, {natlit(a_)}, {natlit(b_)})" for n, a_, b_ in x]) + ")"
+        pn0 = a["per_name"][0]
+        items.append(f"({entry_coq(ent)}, {strlit(v1)}, {strlit(v2)}, {fp(pn0.get('fp_str'))}, {fp(pn0.get('fp_col'))})")
         metas.append((i, ent, a))
     res = ctx.cases("c16", HEADER, items, per_file=400, result_ty="str", fn="check")
     hist_real, hist_model, hist_engine, hist_variant = {}, {}, {}, {}
-    hard, soft, undecided = [], [], []
+    hard, soft, undecided, fp_bad, n_fp = [], [], [], [], {}
     n_nontriv = 0
     for (i, ent, a), r in zip(metas, res):
-        if r is None or len(r) != 4:
+        if r is None or len(r) != 6:
             continue
         f, e, pos, variant, args = ent
         hist_engine[e] = hist_engine.get(e, 0) + 1
@@ -222,6 +251,13 @@ def run(ctx: core.Ctx):
                     soft.append(desc)
                 else:
                     hard.append(desc)
+        for form, flag in (("name", r[4]), ("col", r[5])):
+            if flag == "0":
+                fp_bad.append({"function": f, "engine": e, "position": pos, "variant": variant, "form": form,
+                               "call": call_text(f, args, "c", form == "col"),
+                               "implementation_tree_counts(name,#col,#lit)": a["per_name"][0].get("fp_str" if form == "name" else "fp_col"),
+                               "sqlframe": a["per_name"][0]["str_form" if form == "name" else "col_form"]})
+            n_fp[flag] = n_fp.get(flag, 0) + 1
         if len(args) >= 2:
             n_nontriv += 1
         if len(ctx.samples) < 4 and rnd.random() < 0.002:
@@ -231,6 +267,12 @@ def run(ctx: core.Ctx):
         ctx.broken("T3:impl-vs-model", f"{len(hard)} (entry, name) pairs where the model's verdict differs from the real "
                    f"call; first: {hard[0]['call_with_name']} on {hard[0]['engine']}: model {hard[0]['model_verdict']}, "
                    f"implementation {hard[0]['implementation_verdict']}", data=hard[:10])
+    if fp_bad:
+        ctx.broken("T3:data-flow", f"{len(fp_bad)} real trees in which an argument occurs as column / string literal a "
+                   f"different number of times than in the model's result; first: {fp_bad[0]['call']} on "
+                   f"{fp_bad[0]['engine']}: {fp_bad[0]['sqlframe']}", data=fp_bad[:10])
+    with open(os.path.join(ctx.build, "t3_detail.json"), "w") as fh:      # for the developer; not part of the evidence
+        json.dump({"hard": hard, "soft": soft, "undecided": undecided, "fp_bad": fp_bad}, fh, indent=1)
     und_funcs = sorted({u["function"] for u in undecided})
     opaque_funcs = {k: v["opaque"] for k, v in gen.get("funcs", {}).items() if v.get("opaque")}
     ctx.coverage.update({
@@ -244,6 +286,9 @@ def run(ctx: core.Ctx):
         "histogram_implementation_verdict": hist_real, "histogram_model_verdict": hist_model,
         "verdict_legend": "E same expression, D different expression, R only the name form raises, B the col() form "
                           "raises (property vacuous), U undecided by the model (Opaque construct reached)",
+        "data_flow_fingerprints": n_fp,
+        "data_flow_legend": "per real tree: 1 = every argument occurs as column reference / string literal exactly as often "
+                            "as in the model's symbolic result, 0 = not, ? = model result unknown/raises, - = real call raised",
         "model_undecided_entries": len(undecided), "model_undecided_functions": und_funcs,
         "opaque_functions": opaque_funcs,
         "soft_mismatches_col_form_raises": [{"call": s["call_with_col"], "engine": s["engine"], "raises": s["sqlframe_with_col"],
